@@ -164,7 +164,8 @@ def resetRead {C : Type} (s : ReadSock C) (remaining : Nat) : Except String (Rea
     else .error "index out of bounds"
   | _ => .error "invalid state"
 
-/-- `ReadFrameLen`, after the frame size is known. -/
+/-- `ReadFrameLen`, after the frame size is known. An invalid frame size is kept in
+`current_frame_size` before the error is returned, so every later poll reports the same error. -/
 def afterSize {C : Type} (P : Params) (s : ReadSock C) (fs remaining : Nat) :
     ReadSock C × Option ROut :=
   if remaining < fs then
@@ -172,7 +173,7 @@ def afterSize {C : Type} (P : Params) (s : ReadSock C) (fs remaining : Nat) :
       ({ s with cur := some fs, st := .readData s.canon }, none)
     else
       ({ s with cur := some fs, st := .readData (s.nread + fs - remaining) }, none)
-  else if fs ≤ P.TAG then (s, some (.err .invalidData))
+  else if fs ≤ P.TAG then ({ s with cur := some fs }, some (.err .invalidData))
   else ({ s with cur := some fs, st := .process none 0 0 0 }, none)
 
 /-- `ReadState::ReadFrameLen` -/
